@@ -819,7 +819,12 @@ func (m *Memory) checkGc() {
 			i := 0
 
 			// go 1 by 1 and delete stuff
-			for id := m.nextId.Load() - uint64(m.Cfg.MaxRecords); id > 0; id-- {
+			// keep the newest MaxRecords records (IDs go up to nextId-1)
+			next := m.nextId.Load()
+			if next <= uint64(m.Cfg.MaxRecords)+1 {
+				return nil
+			}
+			for id := next - 1 - uint64(m.Cfg.MaxRecords); id > 0; id-- {
 				i++
 
 				// time
